@@ -237,3 +237,59 @@ B("benign-gate-all-form", ["C01", "C05"], WF,
             if ready:""",
   """            ready = all([(input_task.state == BaseTaskState.FINISHED) if dependency == BaseTaskDependency.FS else ((input_task.state in [BaseTaskState.WORKING, BaseTaskState.FINISHED]) if dependency == BaseTaskDependency.SS else True) for input_task, dependency in input_task_list])
             if ready:""")
+
+# ---------------------------------------------------------------------------------------- C08
+M("C08-record-only-when-working", "C08", "R8.1", PJ,
+  """            self.__record(working=working)
+""",
+  """            if working:
+                self.__record(working=working)
+""")
+M("C08-append-live-list", "C08", "R8.2", WP,
+  """        record = []
+        if len(self.placed_component_list) > 0:
+            record = [c.ID for c in self.placed_component_list]
+        self.placed_component_id_record.append(record)""",
+  """        self.placed_component_id_record.append(self.placed_component_list)""")
+M("C08-init-forgets-log", "C08", "R8.4", WP,
+  """            self.cost_list = []
+            self.placed_component_id_record = []""",
+  """            self.cost_list = []""")
+M("C08-reverse-forgets-log", "C08", "R8.4", TK,
+  """        self.allocated_facility_id_record = self.allocated_facility_id_record[::-1]
+""",
+  """""")
+M("C08-record-skips-auto-tasks", "C08", "R8.1", WF,
+  """        for task in self.task_list:
+            task.record_allocated_workers_facilities_id()""",
+  """        for task in self.task_list:
+            if task.auto_task:
+                continue
+            task.record_allocated_workers_facilities_id()""")
+M("C08-record-wrong-attribute", "C08", "R8.2", TK,
+  """        self.remaining_work_amount_record_list.append(self.remaining_work_amount)""",
+  """        self.remaining_work_amount_record_list.append(self.actual_work_amount)""")
+M("C08-record-mutates-state", "C08", "R8.3", WK,
+  """        if working:
+            self.state_record_list.append(self.state)
+        else:
+            self.state_record_list.append(BaseWorkerState.ABSENCE)""",
+  """        if working:
+            self.state_record_list.append(self.state)
+        else:
+            self.state = BaseWorkerState.ABSENCE
+            self.state_record_list.append(self.state)""")
+M("C08-double-cost-append", "C08", "R8.1", OG,
+  """        self.cost_list.append(cost_this_time)
+        return cost_this_time""",
+  """        self.cost_list.append(cost_this_time)
+        if add_zero_to_all_workers:
+            self.cost_list.append(0.0)
+        return cost_this_time""")
+B("benign-record-copy-list", ["C08"], TK,
+  """        self.allocated_worker_id_record.append([worker.ID for worker in self.allocated_worker_list])""",
+  """        ids = [worker.ID for worker in self.allocated_worker_list]
+        self.allocated_worker_id_record.append(ids)""")
+B("benign-reverse-inplace", ["C08"], TK,
+  """        self.state_record_list = self.state_record_list[::-1]""",
+  """        self.state_record_list.reverse()""")
